@@ -184,8 +184,13 @@ def documented_bounds(c):
     return ("ok", mn or 0, mx)
 
 
+def model_undecided(c):
+    """the model driver did not answer this request in time (its matcher is a plain backtracker): counted, never judged"""
+    return (c.mhead or "").startswith("died")
+
+
 def corresponds(c):
-    if c.skip:
+    if c.skip or model_undecided(c):
         return True
     if c.head.startswith("root="):
         return c.mhead is not None and c.mhead.startswith("items=") and c.mf.get("items") == c.f.get("items") and c.mf.get("logs") == c.f.get("logs")
@@ -241,6 +246,9 @@ def correspondence_step(rep, cases, what):
     for c in cases:
         if c.skip or c.model is None:
             rep.stats["skipped(not expressible by a recorded tree)"] += 1
+            continue
+        if model_undecided(c):
+            rep.stats["model-timeout (undecided, not judged)"] += 1
             continue
         n += 1
         rep.traces += 1
